@@ -44,9 +44,10 @@
 //
 // After every op the bubble runs to quiescence and one segment is emitted:
 //
-//	<tok>,<mid>,<cache>,<lock>,<bwR>,<bwS>,<obs>,<lim>/<calls>,<pings>,<writes>,<liveobs>
+//	<tok>,<mid>,<cache>,<lock>,<bwR>,<bwS>,<obs>,<lim>,<rmid>/<calls>,<pings>,<writes>,<liveobs>
 //
-// (tcp: mid, cache, lock are 0).  After the last op the harness ends every exchange, then alternates
+// (tcp: mid, cache, lock, rmid are 0; rmid = udp/client Conn.requestMessageIDs, token of a confirmable request that is being
+// written -> its message ID).  After the last op the harness ends every exchange, then alternates
 // sleeping and housekeeping ticks well past every deadline and emits the final segment `final:<sizes>/<live…>`.
 package c13
 
@@ -111,7 +112,7 @@ type world struct {
 	bw       bool
 	cc       conn
 	observe  func(req *pool.Message, f func(*pool.Message)) (observation, error)
-	sizes    func() [8]int
+	sizes    func() [9]int
 	inject   func([]byte) error
 	taken    func() []sent
 	cancels  map[int]context.CancelFunc
@@ -322,7 +323,7 @@ func (w *world) segment() string {
 			live++
 		}
 	}
-	seg := fmt.Sprintf("%d,%d,%d,%d,%d,%d,%d,%d/%d,%d,%d,%d", sz[0], sz[1], sz[2], sz[3], sz[4], sz[5], sz[6], sz[7], w.calls, w.pings, w.writes, live)
+	seg := fmt.Sprintf("%d,%d,%d,%d,%d,%d,%d,%d,%d/%d,%d,%d,%d", sz[0], sz[1], sz[2], sz[3], sz[4], sz[5], sz[6], sz[7], sz[8], w.calls, w.pings, w.writes, live)
 	if len(w.probes) > 0 {
 		seg += "!" + strings.Join(w.probes, "!")
 		w.probes = nil
@@ -835,9 +836,9 @@ func runUDP(t *testing.T, nstart uint32, bw bool, limit, eplimit int64, ops []st
 			}
 			return o, nil
 		}
-		w.sizes = func() [8]int {
+		w.sizes = func() [9]int {
 			z := cc.VerifSizes()
-			return [8]int{z.Token, z.Mid, z.Cache, z.Lock, z.BwRecv, z.BwSend, z.Obs, z.Limiter}
+			return [9]int{z.Token, z.Mid, z.Cache, z.Lock, z.BwRecv, z.BwSend, z.Obs, z.Limiter, cc.VerifRequestMessageIDs()}
 		}
 		w.inject = func(d []byte) error { return cc.Process(nil, d) }
 		w.obsReq = cc.GetObservationRequest
@@ -894,9 +895,9 @@ func runTCP(t *testing.T, bw bool, limit, eplimit int64, ops []string) (out stri
 			}
 			return o, nil
 		}
-		w.sizes = func() [8]int {
+		w.sizes = func() [9]int {
 			z := cc.VerifSizes()
-			return [8]int{z.Token, 0, 0, 0, z.BwRecv, z.BwSend, z.Obs, z.Limiter}
+			return [9]int{z.Token, 0, 0, 0, z.BwRecv, z.BwSend, z.Obs, z.Limiter, 0}
 		}
 		w.inject = func(d []byte) error { return peer.Write(d) }
 		w.obsReq = cc.GetObservationRequest
